@@ -23,6 +23,7 @@
 # This file contains types and functions which help build ANSI escape code strings
 
 import re
+import sys
 import math
 from typing import Any, Union, List, Dict, Tuple
 from .ansi_param import AnsiParam, AnsiParamEffect, EFFECT_CLEAR_DICT
@@ -728,6 +729,13 @@ class AnsiString:
         Returns:
             (start, end) values where accompanying formats should be applied
         '''
+        def parse_width(num:str) -> int:
+            width = int(num)
+            if width > sys.maxsize:
+                # Same error as str.__format__ for a width which cannot be represented
+                raise ValueError('Too many decimal digits in format string')
+            return width
+
         extend_formatting = True
         match = re.search(r'^(?:(.?)([+-]?)<)?([0-9]*)$', string_format)
         if match:
@@ -738,7 +746,7 @@ class AnsiString:
                 self.apply_formatting(settings)
             if num:
                 self.ljust(
-                    int(num),
+                    parse_width(num),
                     match.group(1) or ' ',
                     inplace=True,
                     extend_formatting=extend_formatting)
@@ -755,7 +763,7 @@ class AnsiString:
                 self.apply_formatting(settings)
             if num:
                 self.rjust(
-                    int(num),
+                    parse_width(num),
                     match.group(1) or ' ',
                     inplace=True,
                     extend_formatting=extend_formatting)
@@ -772,7 +780,7 @@ class AnsiString:
                 self.apply_formatting(settings)
             if num:
                 self.center(
-                    int(num),
+                    parse_width(num),
                     match.group(1) or ' ',
                     inplace=True,
                     extend_formatting=extend_formatting)
